@@ -368,6 +368,20 @@ def run(ctx):
                     np.dtype([("re", np.int16), ("im", np.int16)]), object, np.dtype("V4"), np.dtype("V8"), np.dtype("V16"), np.void, "V2",
                     np.dtype("i2,i2"), np.dtype([("real", ">i2"), ("imag", ">i2")]), np.dtype([("real", "<i2"), ("imag", "<i2"), ("pad", "u1")]), "S4",
                     np.datetime64, np.uint32):
+            # ... also when the value already HAS that unsupported dtype (a same-dtype request is not a licence to skip the check)
+            same = []
+            try:
+                bd = np.dtype(bad)
+                if bd != np.dtype(object):
+                    same = [np.zeros(3, bd), np.zeros((), bd), np.zeros(2, bd)[0]]
+            except TypeError:
+                pass
+            for v2 in same:
+                r2 = outcome(convert_complex, bad, v2)
+                ctx.case(("unsupported-same-dtype", str(bad), type(v2).__name__))
+                if not (r2[0] == "err" and r2[1] == "TypeError"):
+                    ctx.violation(what="unsupported requested dtype not refused with TypeError (value of that same dtype)", requested=str(bad),
+                                  value=type(v2).__name__, observed=show(r2)[:200], required="TypeError")
             for v in (a, make(np.dtype(np.complex64), (2,)), make(np.dtype(np.complex128), ())):
                 r = outcome(convert_complex, bad, v)
                 ctx.case(("unsupported", str(bad)))
